@@ -65,9 +65,9 @@ func (r *Repo) ModifyLocked(recs []SDRRecord, erase, cancelResv bool) {
 	r.Recs = recs
 	r.History[r.Version] = append([]SDRRecord(nil), recs...)
 	if erase {
-		r.EraseTS += 7
+		r.EraseTS += 1 + uint32(r.Version%3)
 	} else {
-		r.AddTS += 7
+		r.AddTS += 1 + uint32(r.Version%3)
 	}
 	if cancelResv {
 		r.Resv += 0x101
